@@ -28,6 +28,7 @@ type Explorer struct {
 	Cache    bool // happens-before state caching
 	Deadline time.Time
 	MaxExec  int64
+	Tick     func() // called every 256 executions (heartbeat)
 	// Setup returns the body of thread 0 for a fresh execution and a check run after it.
 	Setup func() (body func(), check func(s *Sched) string)
 
@@ -87,6 +88,9 @@ func (e *Explorer) explore(prefix []int) bool {
 	if (e.MaxExec > 0 && e.Executions >= e.MaxExec) || (!e.Deadline.IsZero() && e.Executions&63 == 0 && time.Now().After(e.Deadline)) {
 		e.Capped = true
 		return true
+	}
+	if e.Tick != nil && e.Executions&255 == 0 {
+		e.Tick()
 	}
 	s, msg := e.run(prefix, false)
 	if msg != "" {
